@@ -184,9 +184,24 @@ def import_results(ck, module, clause, func_substr, new_clause):
     the same facts and copies the records of `clause` whose function contains func_substr"""
     from core import AnchorMissing
 
-    sub = type(ck)(ck.prop, ck.facts, ck.config, ck.tier)
+    if getattr(ck, "nested", False):
+        return 0  # shared clauses are imported at top level only (no transitive / circular imports)
+    cache = ck.facts.__dict__.setdefault("_module_results", {})
+    ckey = (module.__name__, ck.prop)
+    if ckey in cache:
+        sub = cache[ckey]
+    else:
+        sub = type(ck)(ck.prop, ck.facts, ck.config, ck.tier)
+        sub.nested = True
+        sub._summaries = ck._summaries
+        sub._flows = ck._flows
+        try:
+            module.run(sub)
+        except AnchorMissing:
+            pass
+        cache[ckey] = sub
     try:
-        module.run(sub)
+        pass
     except AnchorMissing:
         pass
     n = 0
@@ -199,3 +214,34 @@ def import_results(ck, module, clause, func_substr, new_clause):
             n += 1
     ck.floors += [dict(fl, clause=new_clause) for fl in sub.floors if fl["clause"] == clause and (func_substr is None or func_substr in fl["what"])]
     return n
+
+
+def dispatch_infra(ck, clause):
+    if getattr(ck, "nested", False):
+        return
+    """necessary conditions every source that is dispatched through the loop relies on: the deferred
+    post-action is consumed by the source that asked for it (C09.1/C09.4) and every event reaches the
+    dispatcher looked up for its own token (C01.3)"""
+    from props import C09, C01
+    from core import AnchorMissing
+
+    try:
+        dl = DispatchLoop(ck, clause)
+        C09.take_and_reset(ck, clause, dl)
+        C09.who_may_defer(ck, clause, dl.body)
+    except AnchorMissing:
+        pass
+    import_results(ck, C01, "3", "dispatch_events", clause)
+
+
+def ping_infra(ck, clause):
+    if getattr(ck, "nested", False):
+        return
+    """necessary conditions of every ping-backed source (channel, executor, stream): the eventfd is
+    registered level-triggered for READ (C03.5), the close marker maps to Remove (C03.3), and the
+    underlying Generic keeps its token/poller in step with the poller (C01.5, C15.4)"""
+    from props import C03, C01, C15
+
+    import_results(ck, C03, "5", None, clause)
+    import_results(ck, C01, "5", "Generic", clause)
+    import_results(ck, C15, "4", "Generic", clause)
